@@ -592,15 +592,26 @@ def gen_simple(src):
         return ["simple", t, gen_clock(src) + gen_offset(src)]
     if t == "xsd:dateTime":
         return ["simple", t, gen_date(src) + "T" + gen_clock(src) + gen_offset(src)]
-    if src.bool(0.5):
-        y, m = src.int(0, 50), src.int(0, 11)
+    if src.bool(0.4):
+        # years and months: both fields, years only, months only (normalised: months below 12)
+        y, m = src.weighted([(2, None), (1, 0)]), src.weighted([(2, None), (1, 0)])
+        y = src.int(1, 50) if y is None else y
+        m = src.int(1, 11) if m is None else m
         if y == 0 and m == 0:
             y = 1
         return ["simple", t, ("-" if src.bool(0.2) else "") + "P" + ("%dY" % y if y else "") + ("%dM" % m if m else "")]
-    d, hh, mm, ss = src.int(0, 400), src.int(0, 23), src.int(0, 59), src.int(0, 59)
-    if not (d or hh or mm or ss):
-        d = 1
-    tpart = ("%dH" % hh if hh else "") + ("%dM" % mm if mm else "") + ("%dS" % ss if ss else "")
+    # days and time: every non-empty subset of the four fields (a whole number of days has no time part at all), normalised
+    present = [src.bool(0.5) for _ in range(4)]
+    if not any(present):
+        present[src.int(0, 3)] = True
+    d = src.int(1, 400) if present[0] else 0
+    hh = src.int(1, 23) if present[1] else 0
+    mm = src.int(1, 59) if present[2] else 0
+    ss = src.int(1, 59) if present[3] else 0
+    frac = ""
+    if src.bool(0.15):
+        frac = "." + src.choice(["5", "25", "001", "123456789", "000000001"])
+    tpart = ("%dH" % hh if hh else "") + ("%dM" % mm if mm else "") + ("%d%sS" % (ss, frac) if (ss or frac) else "")
     return ["simple", t, ("-" if src.bool(0.2) else "") + "P" + ("%dD" % d if d else "") + ("T" + tpart if tpart else "")]
 
 
@@ -678,6 +689,21 @@ def judge_tck(ctx, case, _resp):
         return Fail("C18/tck-shape", "%s\n  answer %s\n  is not a TCK value: %s" % (what, obs_brief(o), e))
     if not J.same_typed(sent, got):
         return Fail("C18/tck-round-trip", "%s\n  sent value denotes %r\n  received      %r\n  answer: %s" % (what, sent, got, obs_brief(o)))
+    # the other direction of "sent and received round-trip unchanged": what the service answered, sent back as it is, is answered alike
+    body2 = jbody({"model": CM.ECHO_NAME, "invocable": "Echo", "input": [{"name": "v", "value": payload["value"]}]})
+    rec2 = srv.http.request("POST", "/tck/evaluate", body=body2, headers=JSON_CT)
+    if "noanswer" in rec2:
+        return None          # decided by the first request's protocol when it happens there; a lost second answer is not judged
+    o2 = observe(rec2)
+    what2 = "POST /tck/evaluate %s  (the value member of the answer to %s)" % (body2.decode("ascii")[:300], what[:200])
+    if o2["kind"] != "data" or not isinstance(o2["payload"], dict) or "value" not in o2["payload"]:
+        return Fail("C18/tck-answer-not-accepted-back", "%s\n  is answered by %s" % (what2, obs_brief(o2)))
+    try:
+        got2 = J.norm_received(o2["payload"]["value"])
+    except J.BadDto as e:
+        return Fail("C18/tck-shape", "%s\n  answer %s\n  is not a TCK value: %s" % (what2, obs_brief(o2), e))
+    if not J.same_typed(got, got2):
+        return Fail("C18/tck-round-trip", "%s\n  sent value denotes %r\n  received      %r" % (what2, got, got2))
     return None
 
 
